@@ -112,7 +112,11 @@ pub enum Rel {
 }
 
 pub fn relate(report: &RecoveryScanReport, log: &BuiltLog) -> Rel {
-    let want = &log.txs;
+    relate_txs(report, &log.txs)
+}
+
+/// Same, against an explicit committed list.
+pub fn relate_txs(report: &RecoveryScanReport, want: &[warp_core::causal_wal::WalCommittedTransaction]) -> Rel {
     let got = &report.transactions;
     let orig: Vec<_> = want.iter().map(|t| t.commit.commit_digest).collect();
     for (i, g) in got.iter().enumerate() {
